@@ -3,6 +3,7 @@
 From SQ Require Import lib.Base gen.Gen_C04.
 From SQ Require model.FramePerm proofs.FramePermProofs.
 From SQ Require model.FlowRecv model.FlowRecvSpec proofs.FlowRecvProofs.
+From SQ Require model.StreamCtl model.StreamCtlSpec proofs.StreamCtlProofs.
 Local Open Scope N_scope.
 
 (* ---- component "matrix": frame kind x packet-number space ---- *)
@@ -54,6 +55,29 @@ Theorem C04_rx_rejects_exactly : forall s c off len fin tag,
   end.
 Proof. exact FlowRecvProofs.rx_rejects_exactly. Qed.
 
+(* RESET_STREAM on a stream that is receiving or whose application has sent STOP_SENDING: rejected
+   exactly when the final size differs from an established one (FINAL_SIZE_ERROR, 6) or -- no
+   final size established -- exceeds consumed + stream window or pushes the connection total
+   beyond consumed + connection window (FLOW_CONTROL_ERROR, 3).  A final size below data already
+   received is NOT among the reasons: C04_reset_below_received_accepted exhibits it (known
+   finding reset_final_size_below_received). *)
+Theorem C04_reset_rejects_exactly : forall s c size,
+  FlowRecvProofs.SInv s -> FlowRecvProofs.CInv c ->
+  (FlowRecv.rst s = FlowRecv.Receiving \/ exists a b d, FlowRecv.rst s = FlowRecv.Stopping a b d) ->
+  match FlowRecv.init_reset s c (Some size) with
+  | inr code => FlowRecvProofs.reset_violates s c size
+                /\ (code = 6 <-> (FlowRecv.rst s = FlowRecv.Receiving /\ exists total, FlowRecv.fin_ s = Some total))
+                /\ (code = 3 \/ code = 6)
+  | inl (s', c') => ~ FlowRecvProofs.reset_violates s c size /\ FlowRecvProofs.SInv s' /\ FlowRecvProofs.CInv c'
+  end.
+Proof. exact FlowRecvProofs.reset_rejects_exactly. Qed.
+
+Theorem C04_reset_below_received_accepted :
+  exists s c size, FlowRecvProofs.SInv s /\ FlowRecvProofs.CInv c /\ FlowRecv.rst s = FlowRecv.Receiving
+                   /\ size < FlowRecv.maxrecv s
+                   /\ exists s' c', FlowRecv.init_reset s c (Some size) = inl (s', c').
+Proof. exact FlowRecvProofs.reset_below_received_accepted. Qed.
+
 (* For every operation sequence (frames, reads, stop_sending, transmissions, ack, loss, in any
    order, whether or not a frame closed the connection) and all u32 windows: the connection
    credit on offer (the value any MAX_DATA carries) is at most consumed + connection window; per
@@ -89,6 +113,55 @@ Example C04_example :
         [0; 10; 0; 1; 1; 10; 110; 20; -1; -1; -1; 0; 3; -1; -1; -1; -1]%Z = true.
 Proof. split; vm_compute; reflexivity. Qed.
 
+(* ---- component "st": stream limits and stream states ---- *)
+
+(* A frame of kind k for the n-th stream of class t is rejected exactly when: the stream is locally
+   initiated and the application has not opened it (STREAM_STATE_ERROR, 5); it would create a
+   peer-initiated stream at or beyond the MAX_STREAMS value on offer (STREAM_LIMIT_ERROR, 4);
+   or it is a MAX_STREAM_DATA for an existing receive-only stream (STREAM_STATE_ERROR).  Every
+   other frame is accepted -- including receive-type frames on a send-only stream and
+   STOP_SENDING on a receive-only stream, which RFC 9000 19.4/19.5/19.8/19.13 want rejected:
+   see C04_st_judge_strict_refuted. *)
+Theorem C04_streams_rejects_exactly : forall s t n k,
+  StreamCtl.opn (StreamCtl.rb s) <= FlowRecv.latest (StreamCtl.sy (StreamCtl.rb s)) ->
+  match snd (StreamCtl.sframe s t n k) with
+  | Some code => StreamCtlProofs.srejects s t n k code
+  | None => forall code, ~ StreamCtlProofs.srejects s t n k code
+  end.
+Proof. exact StreamCtlProofs.streams_rejects_exactly. Qed.
+
+(* For every operation sequence and all limits up to 2^60: a MAX_STREAMS frame carries at most
+   closed + limit streams (closed = peer streams of that type whose end the application has
+   seen), and at most 2^60. *)
+Theorem C04_max_streams_bound : forall lb lu ops,
+  lb <= StreamCtl.max_streams_max -> lu <= StreamCtl.max_streams_max ->
+  let s := StreamCtlProofs.sexec (StreamCtl.sinit lb lu) ops in
+  forall vb vu s', StreamCtl.sstep s StreamCtl.STransmit = (s', [vb; vu], false) ->
+  (vb = (-1)%Z \/ exists v, vb = Nz v /\ v <= StreamCtl.cls (StreamCtl.rb s) + StreamCtl.lim (StreamCtl.rb s)
+                           /\ v <= StreamCtl.max_streams_max)
+  /\ (vu = (-1)%Z \/ exists v, vu = Nz v /\ v <= StreamCtl.cls (StreamCtl.ru s) + StreamCtl.lim (StreamCtl.ru s)
+                              /\ v <= StreamCtl.max_streams_max).
+Proof. exact StreamCtlProofs.max_streams_bound. Qed.
+
+(* the faithful model does NOT satisfy the strict judgement: a STREAM frame for a send-only
+   (locally opened unidirectional) stream is accepted.  The witness is replayed on the
+   implementation by the fixed family of component "st" (known finding
+   wrong_direction_stream_frame_accepted). *)
+Theorem C04_st_judge_strict_refuted :
+  exists c, StreamCtlSpec.sjudge c (StreamCtl.srun c) = false /\ StreamCtlSpec.sjudge_tolerant c (StreamCtl.srun c) = true.
+Proof. exists [1; 5; 5; 2; 0; 1; 3; 0; 0]%Z. split; vm_compute; reflexivity. Qed.
+
+(* likewise for "rx": RESET_STREAM with a final size below received data is accepted by the
+   faithful model (known finding reset_final_size_below_received) *)
+Theorem C04_rx_judge_strict_refuted :
+  exists c, FlowRecvSpec.judge c (FlowRecv.run c) = false /\ FlowRecvSpec.judge_tolerant c (FlowRecv.run c) = true.
+Proof. exists [100; 100; 200; 1; 0; 0; 10; 0; 2; 0; 5]%Z. split; vm_compute; reflexivity. Qed.
+
+Example C04_st_example :
+  StreamCtl.srun [1; 2; 2; 1; 1; 0; 1; 3; 1; 0; 5; 1; 1; 2; 0; 1; 1; 3; 0]%Z = [0; 1; -1; 3; 0; 4]%Z
+  /\ StreamCtlSpec.sjudge [1; 2; 2; 1; 1; 0; 1; 3; 1; 0; 5; 1; 1; 2; 0; 1; 1; 3; 0]%Z [0; 1; -1; 3; 0; 4]%Z = true.
+Proof. split; vm_compute; reflexivity. Qed.
+
 Print Assumptions C04_frame_matrix_is_rfc.
 Print Assumptions C04_frame_matrix_rows.
 Print Assumptions C04_server_rejects_is_rfc.
@@ -97,3 +170,9 @@ Print Assumptions C04_codes_are_rfc.
 Print Assumptions C04_rx_rejects_exactly.
 Print Assumptions C04_advertised_credit_bound.
 Print Assumptions C04_transmitted_value.
+Print Assumptions C04_streams_rejects_exactly.
+Print Assumptions C04_max_streams_bound.
+Print Assumptions C04_st_judge_strict_refuted.
+Print Assumptions C04_rx_judge_strict_refuted.
+Print Assumptions C04_reset_rejects_exactly.
+Print Assumptions C04_reset_below_received_accepted.
